@@ -232,8 +232,10 @@ def fnNoJumpInHandlerOfTryWithFinally : Stmt → Bool
 /-- Tags separating the two families of dictionary keys: section keys (`exits`, `continues`, `section_entry`) and
 conditional-section keys (`cond_entry`, `cond_leaves`).  The same AST node may key both families (a `while` that is the
 first statement of a try's `else` block); a clash inside one family is what makes the real code fail an `assert`. -/
-def sk (i : Nat) : Nat := 2 * i
-def ck (i : Nat) : Nat := 2 * i + 1
+def sk (i : Nat) : Nat := 3 * i
+def ck (i : Nat) : Nat := 3 * i + 1
+/-- tag of CFG node ids (keys of `finally_sections`, members of `node_index`) -/
+def nk (i : Nat) : Nat := 3 * i + 2
 
 
 /-- The conditional-section key of an optional part of `visit_Try` (its first statement), if present. -/
@@ -353,5 +355,87 @@ def fnOwnSpec : Stmt → List (NodeId × List Nat)
   | .functionDef _ _ args body _ _ _ => tagAll (args.kidLams ++ [args.id]) [] ++ ownSpecL [] body
   | _ => []
 
+
+
+/-! ### The hypothesis of `C05_paths_partial` with `finally` (step 3) -/
+
+def tnodes (l : List Nat) : List Nat := l.map nk
+
+mutual
+/-- Everything (tagged) the visit of `s` may create in the current builder: dictionary keys and CFG node ids. -/
+def keys3 : Stmt → List Nat
+  | .if_ i test body orelse => ck i :: (tnodes (test.kidLams ++ [test.id]) ++ (keysL3 body ++ keysL3 orelse))
+  | .while_ i test body orelse => sk i :: (tnodes (test.kidLams ++ [test.id]) ++ (keysL3 body ++ keysL3 orelse))
+  | .for_ i _ iter body orelse _ _ => sk i :: (tnodes (iter.kidLams ++ [iter.id]) ++ (keysL3 body ++ keysL3 orelse))
+  | .with_ _ items body _ => tnodes (withItemNodes items) ++ keysL3 body
+  | .try_ i body handlers orelse final =>
+      sk i :: (repKey orelse ++ (repKey handlers ++ (keysL3 body ++ (keysL3 handlers ++ (keysL3 orelse ++ keysL3 final)))))
+  | .handler i ty _ body => sk i :: (tnodes (lamsL ty) ++ keysL3 body)
+  | .functionDef i _ _ body _ _ isAsync => if isAsync then keysL3 body else [nk i]
+  | .classDef i .. => [nk i]
+  | .ret i v => tnodes (lamsL v ++ [i])
+  | .raise i e c => tnodes ((lamsL e ++ lamsL c) ++ [i])
+  | .break_ i => [nk i]
+  | .continue_ i => [nk i]
+  | .other .. => []
+  | s => tnodes (s.headLams ++ [s.id])
+def keysL3 : List Stmt → List Nat
+  | [] => []
+  | s :: ss => keys3 s ++ keysL3 ss
+end
+
+mutual
+/-- the first thing the visit of the statement does is create a CFG node -/
+def stmtEmits : Stmt → Bool
+  | .try_ _ body _ _ _ => blockEmits body
+  | .with_ _ items body isAsync => !isAsync && (!items.isEmpty || blockEmits body)
+  | .handler .. => false
+  | .other .. => false
+  | .functionDef _ _ _ _ _ _ isAsync => !isAsync
+  | .for_ _ _ _ _ _ _ isAsync => !isAsync
+  | _ => true
+def blockEmits : List Stmt → Bool
+  | [] => false
+  | s :: _ => stmtEmits s
+end
+
+mutual
+/-- The modelled language with `finally`: as `frag2`, and a `try` may have a `finally` block provided the block starts
+with a node-creating statement and no handler of that try contains a jump that leaves the handler (the class of the known
+finding: `visit_Try` visits the handlers outside the try's lexical scope).  Try bodies start with a node-creating statement
+and `with` statements have at least one item (both always true of parsed Python; the Lean syntax tree type allows empty
+ones). -/
+def frag3 (inLoop : Bool) : Stmt → Bool
+  | .try_ _ body handlers orelse final =>
+      frag3L inLoop body && frag3H inLoop handlers && frag3L inLoop orelse && frag3L inLoop final &&
+      (final.isEmpty || (blockEmits final && !escapesL false handlers)) && blockEmits body
+  | .handler .. => false
+  | .other .. => false
+  | .if_ _ _ body orelse => frag3L inLoop body && frag3L inLoop orelse
+  | .while_ _ _ body orelse => frag3L true body && frag3L inLoop orelse
+  | .for_ _ _ _ body orelse extra isAsync => !isAsync && extra.isEmpty && frag3L true body && frag3L inLoop orelse
+  | .with_ _ items body isAsync => !isAsync && frag3L inLoop body && !items.isEmpty
+  | .functionDef _ _ _ _ _ _ isAsync => !isAsync
+  | .break_ _ => inLoop
+  | .continue_ _ => inLoop
+  | _ => true
+def frag3L (inLoop : Bool) : List Stmt → Bool
+  | [] => true
+  | s :: ss => frag3 inLoop s && frag3L inLoop ss
+def frag3H (inLoop : Bool) : List Stmt → Bool
+  | [] => true
+  | .handler _ _ name body :: hs => name.isEmpty && frag3L inLoop body && frag3H inLoop hs
+  | _ :: _ => false
+end
+
+/-- The root function is in the modelled language with `finally`. -/
+def fnFrag3 : Stmt → Bool
+  | .functionDef _ _ _ body _ _ isAsync => !isAsync && frag3L false body
+  | _ => false
+
+/-- Dictionary keys and CFG node ids of the function are pairwise distinct within their family (serialiser ids are). -/
+def fnDistinctKeys3 : Stmt → Bool
+  | .functionDef i _ args body _ _ _ => nodupB (sk i :: (tnodes (args.kidLams ++ [args.id]) ++ keysL3 body))
+  | _ => false
 
 end Malt.Cfg
